@@ -54,10 +54,11 @@ class FixedECU(UDSServer):
 class LiveGateway:
     """DoIP / HSFZ gateway that behaves correctly: activation, ack, reply from the UDS server."""
 
-    def __init__(self, loop: Any, proto: Any, uds: UDSServerTransport) -> None:
+    def __init__(self, loop: Any, proto: Any, uds: UDSServerTransport, pending: bool = False) -> None:
         self.loop = loop
         self.proto = proto
         self.uds = uds
+        self.pending = pending
         self.requests: list[bytes] = []
         self.sent_replies: list[bytes] = []
         self.accepted = 0
@@ -84,6 +85,10 @@ class LiveGateway:
                         writer.write(self.proto.build({"f": "ack", "req": n}, self))
                         reply, _ = await self.uds.handle_request(frame["payload"])
                         if reply is not None:
+                            if self.pending and frame["payload"][:1] != b"\x3e":
+                                writer.write(self.proto.build({"f": "data_raw", "payload": bytes([0x7F, frame["payload"][0], 0x78])}, self))
+                                await writer.drain()
+                                await asyncio.sleep(0.1)
                             writer.write(self.proto.build({"f": "data_raw", "payload": reply}, self))
                     await writer.drain()
         except ConnectionError:
@@ -155,17 +160,18 @@ class C08(Check):
     smoke_runs = 12
 
     def __init__(self) -> None:
-        self._sizes: dict[tuple[str, str], tuple[int, int]] = {}
+        self._sizes: dict[tuple[str, str, bool], tuple[int, int]] = {}
         self._cells: list[tuple[str, str, str, str, int]] | None = None
 
     def setup_process(self) -> None:
         quiet_logging()
 
     # -- dry runs ---------------------------------------------------------------------------------
-    def sizes(self, scheme: str, op: str) -> tuple[int, int]:
-        key = (scheme, op)
+    def sizes(self, scheme: str, op: str, pending: bool = False) -> tuple[int, int]:
+        key = (scheme, op, pending)
         if key not in self._sizes:
             plan = self._base_plan(scheme, op)
+            plan["pending"] = pending
             plan["cuts"] = []
             res = self.run(plan, dry=True)
             self._sizes[key] = tuple(res["note"]["bytes"])  # type: ignore[assignment]
@@ -186,7 +192,7 @@ class C08(Check):
 
     def _base_plan(self, scheme: str, op: str) -> dict[str, Any]:
         return {"prop": "C08", "scheme": scheme, "op": op, "T": 1.0, "max_retry": 1, "restart": 0.0, "wait_timeout": 6.0,
-                "net": {"seed": 1, "lat": [0.0002, 0.001], "segment": "whole"}, "cuts": [], "stall": 0.0}
+                "net": {"seed": 1, "lat": [0.0002, 0.001], "segment": "whole"}, "cuts": [], "stall": 0.0, "pending": False}
 
     def gen(self, seed: int, index: int, tier: str) -> dict[str, Any]:
         rng = rng_for(seed, "C08", index)
@@ -206,6 +212,13 @@ class C08(Check):
         plan["stall"] = rng.choice([0.1, 0.3, 5.0]) if kind == "STALL" else 0.0
         plan["net"] = {"seed": rng.getrandbits(30), "lat": rng.choice([[0.0001, 0.0005], [0.0005, 0.003]]),
                        "segment": rng.choice(["whole", "whole", "random", "bytes"])}
+        if op == "request" and (index >= len(cells) or index % 3 == 0) and rng.random() < 0.5:
+            # the peer announces responsePending before the reply: the loss can then also hit the poll loop
+            plan["pending"] = True
+            c2s_p, s2c_p = self.sizes(scheme, op, True)
+            c2s_0, s2c_0 = self.sizes(scheme, op, False)
+            if d == "s2c" and rng.random() < 0.7:
+                at = rng.randrange(max(s2c_0 - (s2c_p - s2c_0) - 2, 0), s2c_p + 1)
         plan["cuts"] = [{"dir": d, "at": at, "kind": kind}]
         if index >= len(cells) and rng.random() < 0.25:
             # double fault: a second cut on the connection established by the reconnect
@@ -268,13 +281,39 @@ class C08(Check):
             server = FixedECU()
             if scheme in ("tcp-lines", "unix-lines"):
                 st_cls = TCPUDSServerTransport if scheme == "tcp-lines" else UnixUDSServerTransport
+                if plan.get("pending"):
+                    base_cls = st_cls
+
+                    class PendingLines(base_cls):  # type: ignore[misc, valid-type]
+                        """gallia's connection loop with an ECU that needs time: 0x78 first, the reply 0.1 s later."""
+
+                        async def handle_client(self, reader: Any, writer: Any) -> None:
+                            try:
+                                while True:
+                                    line = await reader.readline()
+                                    if not line:
+                                        break
+                                    pdu = bytes.fromhex(line.decode().strip())
+                                    reply, _ = await self.handle_request(pdu)
+                                    if reply is None:
+                                        continue
+                                    if pdu[:1] != b"\x3e":
+                                        writer.write(bytes([0x7F, pdu[0], 0x78]).hex().encode() + b"\n")
+                                        await writer.drain()
+                                        await asyncio.sleep(0.1)
+                                    writer.write(reply.hex().encode() + b"\n")
+                                    await writer.drain()
+                            except ConnectionError:
+                                pass
+
+                    st_cls = PendingLines
                 st = st_cls(server, TargetURI("tcp://h:1" if scheme == "tcp-lines" else "unix:///sim/ecu.sock"))
                 t = loop.create_task(st.run())
                 loop.keep.append(t)
                 await asyncio.sleep(0)
             else:
                 proto = _DoIP(0x0E00, 0x1D, 3) if scheme == "doip" else _HSFZ(0xF4, 0x10)
-                lg = LiveGateway(loop, proto, UDSServerTransport(server, TargetURI("tcp://h:1")))
+                lg = LiveGateway(loop, proto, UDSServerTransport(server, TargetURI("tcp://h:1")), pending=bool(plan.get("pending")))
                 holder["gw"] = lg
                 net.listen(addr, lg.handle)
             cls = cls_for(scheme)
@@ -353,6 +392,8 @@ class C08(Check):
         cell = f"{scheme}:{op}:{cut['dir']}:{kind}"
         for _, c in net.fired_cuts:
             bump(res["faults"], "cut_" + c.kind)
+        if plan.get("pending") and fired:
+            bump(res["probes"], "cut_with_response_pending_peer")
         if out.kind == "exc":
             raise out.exc  # type: ignore[misc]
         if out.hung:
@@ -378,6 +419,9 @@ class C08(Check):
                 b = (mr + 1) * per + sum(0.2 * 2**i for i in range(mr)) + mr * (10.5 if scheme == "doip" else 0.5) + 1.0
                 if kind == "STALL":
                     b += plan.get("stall", 0.0)
+                if plan.get("pending"):
+                    # after responsePending the client legitimately waits for max(timeout, 20 s) of silence per attempt (C04)
+                    b += (mr + 1) * (max(T or 1.0, 20.0) + 1.0)
             if b is not None and dur > b + 1e-9:
                 violation(res, "C08/late", f"C08/late:{scheme}:{s['name']}:{kind}",
                           f"{s['name']} took {dur:.3f}s, bound {b:.3f}s ({kind} cut at {cut['dir']}@{cut['at']})")
@@ -424,7 +468,7 @@ class C08(Check):
         # accepted connections: one per successful reconnect
         outs = ",".join(f"{s['name']}={s['out']}" for s in steps)
         in_flight = bool(fired)
-        res["shape"] = f"{cell}@{cut['at']}|{outs}|restart={plan.get('restart')}|mr={plan['max_retry']}|T={T}|cuts={len(fired)}"
+        res["shape"] = f"{cell}{'+pending' if plan.get('pending') else ''}@{cut['at']}|{outs}|restart={plan.get('restart')}|mr={plan['max_retry']}|T={T}|cuts={len(fired)}"
         res["nontrivial"] = in_flight
         return res
 
